@@ -65,6 +65,16 @@ Proof.
 Qed.
 Print Assumptions C03_none_is_null_call.
 
+(* ---- subscriptions: the generated method hands the same variables dict to execute_ws / _send_subscribe, which
+        converts it with the same _convert_dict_to_json_serializable; so every theorem about call_method
+        (delivery, omitted => absent, None => null, unset input fields absent) holds for the subscribe payload.
+        By construction of the model; what ties it to the code is K1/K3 on subscription methods (fake
+        graphql-transport-ws connection). ---- *)
+Theorem C03_ws_same_variables_as_http : forall ser n S snake nm vs kwargs,
+  call_subscribe ser n S snake nm vs kwargs = call_method ser n S snake nm vs kwargs.
+Proof. exact ws_same_variables_as_http. Qed.
+Print Assumptions C03_ws_same_variables_as_http.
+
 (* ---- the renaming: injective on distinct variables, never a reserved name, valid identifiers ---- *)
 Theorem C03_naming_injective_and_free : forall S snake vs, NoDup (map v_name vs) ->
   NoDup (map (fun v => naming S snake vs (v_name v)) vs) /\
